@@ -639,6 +639,34 @@ func c32tagsMember(g *c32gen) {
 					} else if out == "equivalent" {
 						out = "equivalent;settags-rejected"
 					}
+					// the sender goes down and comes back (a new process) with a third tag set: the
+					// receiver must then hold exactly that set (no key of the previous incarnation
+					// survives), and a Member value handed out before must still read what it read
+					tags3 := maps[(mi*5+1)%len(maps)]
+					var held serf.Member
+					for _, m := range rcv.S.Members() {
+						if m.Name == "snd" {
+							held = m
+						}
+					}
+					heldWas := c32tagStr(held.Tags)
+					if snd3, err := world.NewNode("snd", 0, c32node{pv: vs}.opt(func(c *serf.Config) { c.Tags = tags3 })); err == nil {
+						rcv.Events().NotifyLeave(rcv.MLNode("snd", 0, nil))
+						vsched.Quiesce()
+						node3 := rcv.MLNode("snd", 0, nil)
+						node3.DCur = vs
+						node3.Meta = snd3.Delegate().NodeMeta(memberlist.MetaMaxSize)
+						rcv.Events().NotifyJoin(node3)
+						vsched.Quiesce()
+						got, _ := c32memberTags(rcv, "snd")
+						if sig, why := c32tagsVerdict(tags3, got, vs); sig != "" {
+							report(sig, fmt.Sprintf("the sender went down and came back with tags %s; the receiver's member table has: %s", c32tagStr(tags3), why))
+						}
+						if now := c32tagStr(held.Tags); now != heldWas {
+							report("tags: a Member value handed out earlier changed later", fmt.Sprintf("a Member returned by Members() read tags %s; after the member came back with %s the same value reads %s", heldWas, c32tagStr(tags3), now))
+						}
+						snd3.S.Shutdown()
+					}
 					snd.S.Shutdown()
 					rcv.S.Shutdown()
 				})
